@@ -668,3 +668,21 @@ func (e *Engine) lookupLocalNth(fr *Frame, name, nth string) (*Ptr, types.Type, 
 	}
 	return p, al.Type().(*types.Pointer).Elem(), true
 }
+
+// staticOnly: the root carries `static_only Cnn` for the property being checked (or, under `govc debug`, for any
+// property): its body is not executed symbolically for this check.
+func (e *Engine) staticOnly(c *FuncContract) bool {
+	list := strings.Fields(c.Flags["static_only"])
+	if len(list) == 0 {
+		return false
+	}
+	if currentPropID == "" {
+		return true
+	}
+	for _, id := range list {
+		if id == currentPropID {
+			return true
+		}
+	}
+	return false
+}
